@@ -326,7 +326,10 @@ struct ChunkFooter {
 /// For the canonical empty chunk to be `static`, its type must be `Sync`, which
 /// is the purpose of this wrapper type. This is safe because the empty chunk is
 /// immutable and never actually modified.
-#[repr(transparent)]
+// Aligned to `CHUNK_ALIGN` (the largest supported `MIN_ALIGN`) because the bump
+// finger of a `Bump` without any chunk points at this static and must satisfy
+// `MIN_ALIGN`.
+#[repr(C, align(16))]
 struct EmptyChunkFooter(ChunkFooter);
 
 unsafe impl Sync for EmptyChunkFooter {}
